@@ -218,7 +218,17 @@ def anchor_universes() -> typing.List[dict]:
     uu = _td(["r3"], "U", [f(_ref("r3._"), "carrier"), {"k": "const", "type": {"t": "bool"}, "name": "B", "value": "true"},
                            {"k": "const", "type": {"t": "float", "bits": 32, "cast": "saturated"}, "name": "THIRD", "value": "1/3"}], doc=["plain VFS1X"])
     u3 = {"roots": [{"name": "r3", "types": [us, uu]}]}
-    return [u1, u2, u3]
+    # namespaces whose full names are string prefixes of one another WITHOUT a dot boundary (plant.pump / plant.pumpctl, roots
+    # ns / ns2), referencing each other in every direction: "is this type on this page?" must not be a string-prefix test
+    mode = _td(["plant", "pumpctl"], "Mode", [f(_u8(), "m")], doc=["plain VFS0X"])
+    pump = _td(["plant", "pump"], "Pump", [f(_ref("plant.pumpctl.Mode"), "mode"), f(_u8(), "rpm")], doc=["plain VFS1X"])
+    ctl = _td(["plant", "pumpctl"], "Ctl", [f(_ref("plant.pump.Pump"), "pump"), f({"t": "varr", "elem": _ref("plant.pumpctl.Mode"), "cap": 2, "incl": True}, "modes")], doc=["plain VFS2X"])
+    top = _td(["plant"], "Top", [f(_ref("plant.pump.Pump"), "p"), f(_ref("plant.pumpctl.Ctl"), "c")], doc=["plain VFS3X"])
+    deep = _td(["plant", "pump", "x"], "Deep", [f(_ref("plant.pumpctl.Mode"), "m"), f(_ref("plant.Top"), "t")], doc=["plain VFS4X"])
+    other = _td(["plant2"], "Other", [f(_ref("plant.pumpctl.Mode"), "m"), f(_ref("plant.Top"), "t")], doc=["plain VFS5X"])
+    other2 = _td(["plant2", "pump"], "Other2", [f(_ref("plant2.Other"), "o"), f(_ref("plant.pump.Pump"), "p")], doc=["plain VFS6X"])
+    u4 = {"roots": [{"name": "plant", "types": [mode, pump, ctl, top, deep]}, {"name": "plant2", "types": [other, other2]}]}
+    return [u1, u2, u3, u4]
 
 
 # ------------------------------------------------------------------------------------------------------------- HTML pages
@@ -855,7 +865,7 @@ def run(ctx: core.Ctx):
         "type-page back link '/reg/Namespace.html', duplicate ids and empty service pages are outside the statement: counted in 'observations'",
     ]
     selfcheck()
-    n = 20 if ctx.quick else 600
+    n = 60 if ctx.quick else 600
     cases = [{"universe": u} for u in anchor_universes()] + _draw_cases(ctx, n)
     obs: typing.Counter[str] = collections.Counter()
     import nunavut.cli  # noqa: F401  (import before fork)
